@@ -169,6 +169,7 @@ def run_path(h, params, prefix, timeout_ms, stats, viol_budget, selfcheck):
         out["inconclusive"].append("path condition not satisfiable at end of path (engine error or solver unknown)")
         return out
     # ---- obligations ----
+    proved = {}  # simplified condition (z3 AST id, term kept alive) already shown unsat-negated on this path
     for name, cond, tags in c.obligations:
         out["obligations"] += 1
         rc = out["reach"].setdefault(name, [0, 0])
@@ -180,10 +181,15 @@ def run_path(h, params, prefix, timeout_ms, stats, viol_budget, selfcheck):
             if z3.is_true(cs):
                 out["discharged"] += 1
                 continue
+            if cs.get_id() in proved:
+                out["discharged"] += 1
+                out["nontrivial"] += 1
+                continue
             r = c.check(z3.Not(ce), label="ob:" + name)
             if r == "unsat":
                 out["discharged"] += 1
                 out["nontrivial"] += 1
+                proved[cs.get_id()] = cs
                 continue
             if r == "unknown":
                 out["inconclusive"].append("solver unknown on obligation %s" % name)
